@@ -6,7 +6,7 @@ ID = "C04"
 ANCHORS = 'deep_lift_shap._nonlinear,deep_lift_shap.hypothetical_attributions,deep_lift_shap._register_hooks,deep_lift_shap._fp_hook,deep_lift_shap._f_hook,deep_lift_shap._b_hook'.split(",")
 MIN_INSTANCES = 9
 # rule families whose findings in this module are derived by an engine (not by comparing spellings): exempt from the rewrite gate
-SEMANTIC_RULES = set()
+SEMANTIC_RULES = {"REFGRAD"}
 EXPLANATION = (
     "R-TERM (local, algebraic): the backward rule deep_lift_shap._nonlinear is evaluated symbolically into a rational normal form "
     "(polynomials over first/second halves of module.input/output and the incoming gradients); on the non-fallback arm the "
@@ -36,6 +36,7 @@ def run(repo, tier):
     out += dls.hypothetical_rule(repo)
     out += dls.processing_rule(repo)
     out += dls.maxpool_rule(repo)
+    out += dls.refgrad_rule(repo)
     return out
 
 
